@@ -194,7 +194,7 @@ func c04RunScript(w *c34World, reg *c34Reg, j *c04Job, app []byte) (*c04Result, 
 		j.script = c34EvString(evs)
 	}
 	cj.VerifC34ResetUnused(w.rm, reg.reg)
-	conn := newC34Scripted(evs, c04Remote)
+	conn := newC34Scripted(evs, c34Peer(50123))
 	run, done := w.start(conn, reg.phantom, "ok")
 	// the "client" waits for the whole echo, then closes
 	got := make(chan bool, 1)
@@ -244,7 +244,7 @@ func c04RunPipe(w *c34World, reg *c34Reg, j *c04Job, app []byte) (*c04Result, er
 	}
 	a, b := net.Pipe()
 	cj.VerifC34ResetUnused(w.rm, reg.reg)
-	conn := newC34Real(b, c04Remote)
+	conn := newC34Real(b, c34Peer(50123))
 	run, done := w.start(conn, reg.phantom, "ok")
 	_ = a.SetDeadline(time.Now().Add(20 * time.Second))
 	seg := &c04SegConn{Conn: a, cuts: j.cuts, natural: j.natural, delay: time.Duration(j.delayUs) * time.Microsecond}
